@@ -645,7 +645,7 @@ func (e *testEnv) monitorCookies(req *http.Request, v *respView) {
 			if c.HttpOnly != e.cfg.CookieHTTPOnly {
 				bad += fmt.Sprintf("HttpOnly=%v want %v; ", c.HttpOnly, e.cfg.CookieHTTPOnly)
 			}
-			if sameSiteName(c.SameSite) != e.cfg.CookieSameSite {
+			if sameSiteName(c.SameSite) != strings.ToLower(e.cfg.CookieSameSite) { // a spelling that validation lets through means that attribute
 				bad += fmt.Sprintf("SameSite=%q want %q; ", sameSiteName(c.SameSite), e.cfg.CookieSameSite)
 			}
 			if c.Path != wantPath {
